@@ -311,7 +311,7 @@ def check_long(case):
     X[n // 2 + 2:] += 0.5
     X[n // 5: n // 5 + min(40_000, n // 10)] -= 0.8
     if case.get("end_shift"):
-        X[n - msl:] += 1.0
+        X[n - msl:] += 5.0  # dominant: the whole-series candidate peaks at its last admissible split
     with sut("SeededBinarySegmentation.fit/predict (very long series)"):
         det = K.build(K.detector_spec("SeededBinarySegmentation", params)).fit(X)
         y = det.predict(X)
